@@ -27,7 +27,8 @@ RULE = ("objects of all exported classes over the C06 domain (ports, protocols, 
         "mutation/transformation kind, side)"
         " Round 4: identifier and note of the blocks (AceGroup objects) under every in-place transformation; platform re-assigned with the same value and with aliases."
         " Round 5: bindings recorded twice through the live input/output lists before copy."
-        " Rounds 6-7: identifier and note of address-group members under in-place transformations.")
+        " Rounds 6-7: identifier and note of address-group members under in-place transformations."
+        " Round 8: caller-chosen identifiers in UUID-like spellings; hand-made AceGroups with group_by and a heading remark.")
 ASSUMPTIONS = ["the component objects of an ACE (srcaddr/srcport/protocol/option) are rebuilt by design on every Ace.line "
                "assignment; their uuid/note resets are counted, not judged", "AceGroup blocks recreated by an operation that "
                "regroups are not judged for identity", "SwVersion/IPv4Network/IPv4Address objects are immutable values"]
